@@ -223,6 +223,7 @@ struct Ctx
     int abort_other_delay = 0;
     bool abort_other_requested = false;
     bool aborted_current = false;
+    bool disrupted = false; // a refused start-while-running stopped the cameras of the running acquisition
     int started_acqs = 0;
     bool prev_enabled[2] = { false, false };
     int prev_cam[2] = { -1, -1 }, prev_store[2] = { -1, -1 };
@@ -555,6 +556,7 @@ apply_scripts(Ctx& x, const StreamCfg cfg[2])
         cs.period_us = c.period_us;
         cs.noframe_every = c.noframe_every;
         cs.gap_every = c.gap_every;
+        cs.stop_yields = (c.period_us / 100) % 2 == 1 || c.period_us == 0; // a stop that takes a while (scheduling point inside)
         vmock::StoreScript& ss = vmock::hub.store_script[c.store];
         ss = vmock::StoreScript();
         ss.delay_ms = c.store_delay_ms;
@@ -639,8 +641,28 @@ do_start(Ctx& x)
     if (!x.configured || x.c.ended)
         return;
     if (x.running) {
+        // start while running: the runtime must refuse (the shipped repeat-start-no-stop test expects
+        // AcquireStatus_Error).  Its error path stops the cameras, so the acquisition in progress
+        // winds down early: from here on it is judged like an aborted one.
+        // Only where the running acquisition cannot end by itself in the meantime (infinite, or waiting
+        // for triggers, and no scripted fault): otherwise the second start may legitimately succeed.
+        for (size_t ai : x.cur_acqs) {
+            const AcqRec& a = x.acqs[ai];
+            if (a.cfg.fault_site || !(a.cfg.nframes < 0 || a.cfg.trigger))
+                return;
+        }
+        if (x.aborted_current || !x.other_done || x.disrupted)
+            return; // (after one refused start the acquisition is already winding down)
         x.c.cls(CL_START_WHILE_RUNNING);
-        return; // start while running is exercised only in the tier-B grammar (see DESIGN.md); not here
+        if (x.started_acqs >= 1)
+            x.c.nontrivial(P_C08);
+        x.c.trace("client: START while running");
+        AcquireStatusCode r2 = acquire_start(x.rt);
+        if (r2 == AcquireStatus_Ok)
+            x.c.fail_soft("C08", "start-while-running-accepted", "ok", "acquire_start succeeded although an acquisition was running");
+        x.disrupted = true;
+        x.configured = false;
+        return;
     }
     apply_scripts(x, x.applied);
     x.acq_index++;
@@ -741,6 +763,10 @@ finish_acquisition(Ctx& x, bool by_abort, const char* how)
 {
     // called after acquire_stop / acquire_abort returned
     x.running = false;
+    if (x.disrupted) {
+        by_abort = true;
+        x.disrupted = false;
+    }
     if (x.c.ended)
         return;
     DeviceState st = acquire_get_state(x.rt);
@@ -1226,6 +1252,9 @@ client_main(void*)
             case K_START:
                 if (!x.configured && !x.running)
                     do_configure(x, op.cfg);
+                if (x.running && x.rt && !x.c.ended) {
+                    x.configured = true; // (start while running does not depend on it)
+                }
                 do_start(x);
                 break;
             case K_RUN:
